@@ -1,8 +1,8 @@
 """Workload generator for C08: sub-routines and call sites in the mini-AST of sim/cref.py.
 
 Configuration A ("collision-free"): callee locals carry the routine's name, caller variables are
-disjoint from them, no conversion matches a known finding (F5a: signed -> wider unsigned argument;
-F5b: returned expression signed and narrower than the declared return type).  Any violation found
+disjoint from them, no conversion matches known finding F5a (signed -> wider unsigned, as argument or
+as return conversion).  Any violation found
 in configuration A is new.
 Configuration B ("anything goes"): names come from one small pool and every (argument, parameter,
 return) type triple is allowed.
@@ -25,8 +25,8 @@ def f5a(s, t):
 
 
 def f5b(e, r):
-    """returned expression signed and narrower than the declared return type"""
-    return e[0] == "s" and e[1] < r[1]
+    """returned expression -> declared return type: after the F5b fix only the F5a pattern still deviates"""
+    return f5a(e, r)
 
 
 class CallGen:
@@ -169,7 +169,8 @@ class CallGen:
             return n
 
         user = [self.funcs[n] for n in self.order]
-        bundled = [dict(v, name=k) for k, v in cref.BUNDLED.items()] if allow_bundled else []
+        # conv_round shifts by its second argument: only called with literal amounts (FIXED_CALLERS), never with data
+        bundled = [dict(v, name=k) for k, v in cref.BUNDLED.items() if k != "conv_round"] if allow_bundled else []
         pool = user * 3 + bundled
         form = ch.weighted([("single", 5), ("two_calls", 5), ("parked", 4), ("arg_call", 3), ("three_calls", 2), ("cond_calls", 1)], "cform")
         stmts = []
